@@ -199,7 +199,7 @@ def handleMusig : List String → String
   | ["pverify", s, pn, an, keys, pk, msg, sort, tw] =>
     match hexToNat? s, hexToList? pn, hexToList? an, parseKeys? keys, hexToList? pk, hexToList? msg, parseTweakOpt? tw with
     | some s, some pn, some an, some keys, some pk, some msg, some tw =>
-      b01 (verifyPartial s pn an keys pk msg (sort == "1") (twOf tw))
+      b01 (verifyPartial s pn an keys pk msg (sort.startsWith "1") (twOf tw))
     | _, _, _, _, _, _, _ => "bad-op"
   | _ => "bad-op"
 
